@@ -53,6 +53,7 @@ type loopInfo struct {
 	decHead string
 	pos     token.Pos
 	isRangeIndex bool
+	autoInv []func(map[*ssa.Phi]string) string
 }
 
 type FuncGen struct {
@@ -88,6 +89,8 @@ type FuncGen struct {
 	assumed []string
 	callsExternalUnmodelled map[string]bool
 	order []*ssa.BasicBlock
+	heapSeen map[string]bool
+	heapQueue [][2]string
 }
 
 type iterInfo struct {
@@ -278,6 +281,7 @@ func (g *Gen) GenFunc(fn *ssa.Function) (*FuncGen, error) {
 	}
 	fg.finishLoops()
 	fg.finishReturns()
+	fg.flushHeaps()
 	if fg.err != nil {
 		return nil, fg.err
 	}
@@ -398,6 +402,7 @@ func (fg *FuncGen) baseEnv(st, old State) *Env {
 	env := &Env{g: fg.g, vars: map[string]TTerm{}, st: st, old: old, wm0: fg.wm0, err: &fg.err, fnName: fg.key}
 	env.famOf = func(f string) string { return fg.famIn(env.st, f) }
 	env.famOld = func(f string) string { return fg.famIn(old, f) }
+	env.onHeap = fg.noteHeap
 	return env
 }
 
@@ -942,6 +947,26 @@ func (fg *FuncGen) loopHead(li *loopInfo, fwd []*ssa.BasicBlock, in string, rnam
 		initVals[phi] = term
 	}
 	tags := fg.funcTags()
+	// automatic invariant of range-over-slice loops: the hidden index stays within [-1, len)
+	li.autoInv = nil
+	for _, instr := range b.Instrs {
+		if cmp, ok := instr.(*ssa.BinOp); ok && cmp.Op == token.LSS {
+			if add, ok := cmp.X.(*ssa.BinOp); ok && add.Op == token.ADD {
+				if phi, ok := add.X.(*ssa.Phi); ok && phi.Comment == "rangeindex" && phi.Block() == b {
+					if defBlock(cmp.Y) == nil || !li.blocks[defBlock(cmp.Y)] {
+						lim := fg.valueOf(cmp.Y).S
+						li.autoInv = append(li.autoInv, func(vals map[*ssa.Phi]string) string {
+							return "(and (<= (- 1) " + vals[phi] + ") (<= (+ " + vals[phi] + " 1) " + lim + "))"
+						})
+					}
+				}
+			}
+		}
+	}
+	fg.curReach = li.initReach
+	for i, ai := range li.autoInv {
+		fg.obl("inv.init", fmt.Sprintf("loop%d.auto%d.init", li.ordinal, i+1), li.pos, safetyTags, ai(initVals), "range index stays within bounds")
+	}
 	// invariant establishment
 	fg.curReach = li.initReach
 	if li.spec != nil {
@@ -1002,6 +1027,9 @@ func (fg *FuncGen) loopHead(li *loopInfo, fwd []*ssa.BasicBlock, in string, rnam
 		}
 	}
 	li.headSt = fg.st.Copy()
+	for _, ai := range li.autoInv {
+		fg.emit("(assert (=> %s %s)) ; automatic range-index invariant", rname, ai(li.phiHead))
+	}
 	if li.spec != nil {
 		env := fg.loopEnv(li, li.headSt, li.phiHead)
 		for _, inv := range li.spec.Invariants {
@@ -1068,6 +1096,9 @@ func (fg *FuncGen) finishLoops() {
 					break
 				}
 				vals[phi] = fg.valueOf(fg.phiEdgeValue(phi, b, p)).S
+			}
+			for i, ai := range li.autoInv {
+				fg.obl("inv.pres", fmt.Sprintf("loop%d.auto%d.pres", li.ordinal, i+1), li.pos, safetyTags, ai(vals), "range index stays within bounds")
 			}
 			if li.spec == nil {
 				continue
@@ -1256,4 +1287,35 @@ func (fg *FuncGen) emitDef(nameFmt, sortFmt, termFmt string, a ...interface{}) {
 	srt := fmt.Sprintf(sortFmt, a[n1:n1+n2]...)
 	term := fmt.Sprintf(termFmt, a[n1+n2:]...)
 	fmt.Fprintf(fg.seg(), "(declare-const %s %s)\n(assert (= %s %s))\n", name, srt, name, term)
+}
+
+// noteHeap queues the heap-schematic axioms for a heap term first mentioned in the current segment.
+func (fg *FuncGen) noteHeap(term string) {
+	if fg.heapSeen == nil {
+		fg.heapSeen = map[string]bool{}
+	}
+	k := fmt.Sprintf("%d|%s", fg.segIdx, term)
+	if fg.heapSeen[k] {
+		return
+	}
+	fg.heapSeen[k] = true
+	fg.heapQueue = append(fg.heapQueue, [2]string{fmt.Sprint(fg.segIdx), term})
+}
+
+// flushHeaps emits queued axiom instances into the segments that mention the heap terms.
+func (fg *FuncGen) flushHeaps() {
+	for len(fg.heapQueue) > 0 {
+		q := fg.heapQueue[0]
+		fg.heapQueue = fg.heapQueue[1:]
+		var seg int
+		fmt.Sscan(q[0], &seg)
+		save := fg.segIdx
+		fg.segIdx = seg
+		env := fg.baseEnv(State{}, State{})
+		env.onHeap = nil
+		for _, l := range fg.g.InstHeapAxioms(env, q[1]) {
+			fg.emit("%s", l)
+		}
+		fg.segIdx = save
+	}
 }
